@@ -34,6 +34,10 @@ type Server struct {
 	leases   map[string]*Lease // MAC -> Lease
 	leasesMu sync.RWMutex
 
+	// clientLocks serialise everything that sets up or tears down one client's
+	// session (its messages and the expiry of its lease), striped by MAC
+	clientLocks [256]sync.Mutex
+
 	// Relay support: secondary index for circuit-ID based lookup
 	leasesByCircuitID   map[string]*Lease // hex(CircuitID) -> Lease
 	leasesByCircuitIDMu sync.RWMutex
@@ -298,11 +302,28 @@ func (s *Server) Start(ctx context.Context) error {
 	}
 }
 
+// clientLock returns the lock stripe for a client (keyed by its MAC string).
+func (s *Server) clientLock(mac string) *sync.Mutex {
+	h := uint32(2166136261)
+	for i := 0; i < len(mac); i++ {
+		h = (h ^ uint32(mac[i])) * 16777619
+	}
+	return &s.clientLocks[h%uint32(len(s.clientLocks))]
+}
+
 // handleDHCP handles incoming DHCP packets (slow path)
 func (s *Server) handleDHCP(conn net.PacketConn, peer net.Addr, req *dhcpv4.DHCPv4) {
 	atomic.AddUint64(&s.requestsTotal, 1)
 
 	mac := req.ClientHWAddr.String()
+
+	// Messages are handled by one goroutine each. A client's REQUEST builds its
+	// session in several steps (lease, fast path cache, QoS, NAT, accounting);
+	// its RELEASE, DECLINE or lease expiry must not run in between, or what the
+	// REQUEST sets up afterwards is never released.
+	lock := s.clientLock(mac)
+	lock.Lock()
+	defer lock.Unlock()
 	msgType := req.MessageType()
 
 	// Detect relayed packets: giaddr != 0.0.0.0 means a relay agent forwarded this
@@ -1195,32 +1216,42 @@ func (s *Server) cleanupExpiredLeases() {
 		return
 	}
 
-	s.leasesMu.Lock()
 	for _, mac := range expired {
-		// The lease may have been renewed or released since it was collected
-		lease, ok := s.leases[mac]
-		if !ok || !now.After(lease.ExpiresAt) {
-			continue
-		}
-		delete(s.leases, mac)
-
-		// Remove from circuit-ID secondary index
-		if len(lease.CircuitID) > 0 {
-			cidKey := hex.EncodeToString(lease.CircuitID)
-			s.leasesByCircuitIDMu.Lock()
-			delete(s.leasesByCircuitID, cidKey)
-			s.leasesByCircuitIDMu.Unlock()
-		}
-
-		// Release everything the session held (address, NAT block, QoS
-		// policy, fast path cache entries) and send its Accounting-Stop
-		s.releaseLeaseResources(lease.MAC, lease, radius.TerminateCauseSessionTimeout, true)
+		s.expireLease(mac, now)
 	}
-	s.leasesMu.Unlock()
 
 	s.logger.Info("Cleaned up expired leases",
 		zap.Int("count", len(expired)),
 	)
+}
+
+// expireLease ends the lease of one client if it is still expired.
+func (s *Server) expireLease(mac string, now time.Time) {
+	lock := s.clientLock(mac)
+	lock.Lock()
+	defer lock.Unlock()
+
+	s.leasesMu.Lock()
+	defer s.leasesMu.Unlock()
+
+	// The lease may have been renewed or released since it was collected
+	lease, ok := s.leases[mac]
+	if !ok || !now.After(lease.ExpiresAt) {
+		return
+	}
+	delete(s.leases, mac)
+
+	// Remove from circuit-ID secondary index
+	if len(lease.CircuitID) > 0 {
+		cidKey := hex.EncodeToString(lease.CircuitID)
+		s.leasesByCircuitIDMu.Lock()
+		delete(s.leasesByCircuitID, cidKey)
+		s.leasesByCircuitIDMu.Unlock()
+	}
+
+	// Release everything the session held (address, NAT block, QoS
+	// policy, fast path cache entries) and send its Accounting-Stop
+	s.releaseLeaseResources(lease.MAC, lease, radius.TerminateCauseSessionTimeout, true)
 }
 
 // Stats returns DHCP server statistics
